@@ -182,6 +182,7 @@ def r17c(chk, rid='R17.c'):
 def _eval_set_media_text(chk, rid, m):
     """MediaList._setMediaText after the production parse, evaluated on its syntax tree for
     model sequences of comments and media queries (the parse result is supplied by the model)."""
+    chk.assume('R17.b: the production parse is replaced by its result (a sequence of comment and media-query items); a media query is modelled by mediaType and wellformed')
     import itertools
 
     from sa.absint import Evaluator, Raised, Record
